@@ -3,6 +3,7 @@ import RsslVerif.Spec.Names
 import RsslVerif.Gen.Reserved
 import RsslVerif.Lemmas.Names
 import RsslVerif.Lemmas.NamesTables
+import RsslVerif.Lemmas.NamesOrder
 /-!
 # C15 — renaming is harmless and emitted names are hygienic: theorems about the model of `NameMap::build`
 
@@ -10,7 +11,7 @@ All statements are about `Model.Names.build reserved inp` for **every** input (a
 entries, locals, any reserved list), unless a hypothesis says otherwise.
 -/
 namespace RsslVerif.Thm.C15
-open RsslVerif.Model.Names RsslVerif.Lemmas.Names RsslVerif.Lemmas.NamesTables
+open RsslVerif.Model.Names RsslVerif.Lemmas.Names RsslVerif.Lemmas.NamesTables RsslVerif.Lemmas.NamesOrder
 
 /-! ## the tables and the source facts the model rests on (re-extracted from /repo on every run) -/
 
@@ -28,31 +29,13 @@ theorem source_fingerprints :
     Gen.Reserved.hlslIntrinsicsReserved = true ∧ Gen.Reserved.mslIntrinsicsReserved = false :=
   Lemmas.NamesTables.source_fingerprints
 
-/-- Every entry of the independent keyword / built-in lists is in `RESERVED_NAMES`, except the committed
-exceptions `Spec.Names.hlslNotListed` / `mslNotListed`.  *Partial*: the full statement
-(`∀ n ∈ keywords, n ∈ RESERVED_NAMES`) is false on the pinned tree, see `reserved_incomplete_*`. -/
-theorem reserved_complete_partial :
-    (∀ n ∈ Spec.Names.hlslKeywords, n ∈ Gen.Reserved.hlsl ∨ n ∈ Spec.Names.hlslNotListed) ∧
-    (∀ n ∈ Spec.Names.mslKeywords, n ∈ Gen.Reserved.msl ∨ n ∈ Spec.Names.mslNotListed) :=
-  Lemmas.NamesTables.reserved_complete_partial
-
-/-- the exception lists contain nothing that *is* listed (so they cannot hide a deletion) -/
-theorem not_listed_exact :
-    (∀ n ∈ Spec.Names.hlslNotListed, n ∈ Spec.Names.hlslKeywords ∧ n ∉ Gen.Reserved.hlsl) ∧
-    (∀ n ∈ Spec.Names.mslNotListed, n ∈ Spec.Names.mslKeywords ∧ n ∉ Gen.Reserved.msl) :=
-  Lemmas.NamesTables.not_listed_exact
-
-/-- Negation witness of `reserved_complete` for HLSL: the table has the typo `"SamplerState,"`. -/
-theorem reserved_incomplete_hlsl :
-    "SamplerState" ∈ Spec.Names.hlslKeywords ∧ "SamplerState" ∉ Gen.Reserved.hlsl ∧
-    "SamplerState," ∈ Gen.Reserved.hlsl :=
-  Lemmas.NamesTables.reserved_incomplete_hlsl
-
-/-- Negation witness of `reserved_complete` for MSL: the address-space keywords are not reserved. -/
-theorem reserved_incomplete_msl :
-    "device" ∈ Spec.Names.mslKeywords ∧ "device" ∉ Gen.Reserved.msl ∧
-    "constant" ∉ Gen.Reserved.msl ∧ "thread" ∉ Gen.Reserved.msl ∧ "threadgroup" ∉ Gen.Reserved.msl :=
-  Lemmas.NamesTables.reserved_incomplete_msl
+/-- **reserved_complete** (full): every entry of the independent keyword / built-in lists of HLSL and MSL is
+in the `RESERVED_NAMES` table of the corresponding exporter.  (False before /repo 05e2470: the HLSL table had
+the entry `"SamplerState,"` and 90 HLSL / 43 MSL names were missing.) -/
+theorem reserved_complete :
+    (∀ n ∈ Spec.Names.hlslKeywords, n ∈ Gen.Reserved.hlsl) ∧
+    (∀ n ∈ Spec.Names.mslKeywords, n ∈ Gen.Reserved.msl) :=
+  Lemmas.NamesTables.reserved_complete
 
 /-! ## what is *not* true on the pinned code (negation witnesses, replayed on the real code by the corpus) -/
 
@@ -103,13 +86,14 @@ theorem build_ok {reserved : List String} {inp : Input} {names : List Named}
     ∃ scopes ls,
       runScopes reserved inp (scopeIds inp) = .ok scopes ∧
       assignLocals inp.locals (reserved ++ scopes.flatMap (fun p => p.2.gen)) inp.locals = .ok ls ∧
-      names = (scopes.flatMap fun p => p.2.out.map fun q => (⟨q.1, p.1, q.2⟩ : Named)) ++ build.number ls 0 := by
+      names = (scopes.flatMap fun p => p.2.out.map fun q => (⟨q.1, p.1, q.2⟩ : Named)) ++ numberLocals ls 0 := by
   unfold build at h
   split at h
   · cases h
   · split at h
     · cases h
     · rename_i scopes hs
+      unfold finish at h
       simp only at h
       split at h
       · cases h
@@ -119,13 +103,13 @@ theorem build_ok {reserved : List String} {inp : Input} {names : List Named}
           cases h
           exact ⟨scopes, ls, hs, hl, rfl⟩
 
-theorem number_kind : ∀ (ls : List String) (i : Nat) (n : Named), n ∈ build.number ls i → n.sym.kind = .localVar ∧ n.name ∈ ls := by
+theorem number_kind : ∀ (ls : List String) (i : Nat) (n : Named), n ∈ numberLocals ls i → n.sym.kind = .localVar ∧ n.name ∈ ls := by
   intro ls
   induction ls with
-  | nil => intro i n h; simp [build.number] at h
+  | nil => intro i n h; simp [numberLocals] at h
   | cons x r ih =>
     intro i n h
-    simp only [build.number, List.mem_cons] at h
+    simp only [numberLocals, List.mem_cons] at h
     rcases h with h | h
     · subst h; simp
     · have := ih (i + 1) n h
@@ -193,7 +177,7 @@ theorem injective_per_scope {reserved : List String} {inp : Input} {names : List
   obtain ⟨scopes, ls, hs, hl, rfl⟩ := build_ok h
   obtain ⟨hfst, hinv⟩ := runScopes_spec _ hs
   intro a ha b hb hka hkb hscope hsym
-  have glob : ∀ x, x ∈ (scopes.flatMap fun p => p.2.out.map fun q => (⟨q.1, p.1, q.2⟩ : Named)) ++ build.number ls 0 →
+  have glob : ∀ x, x ∈ (scopes.flatMap fun p => p.2.out.map fun q => (⟨q.1, p.1, q.2⟩ : Named)) ++ numberLocals ls 0 →
       x.sym.kind ≠ .localVar → ∃ p ∈ scopes, ∃ q ∈ p.2.out, x = ⟨q.1, p.1, q.2⟩ := by
     intro x hx hk
     rcases List.mem_append.mp hx with hx | hx
@@ -337,6 +321,50 @@ example :
     (build Gen.Reserved.msl inp).toOption.map (·.map (·.name)) = some ["N", "S", "f_0", "f_1", "g", "p"] ∧
     ((scopeSyms inp (some 0)).filter (fun p => p.1 == "g")).map (·.2) = [⟨.global, 0⟩] := by
   decide +kernel
+
+/-! ## order independence (cited by C07) -/
+
+/-- **build_scope_order_independent**: `NameMap::build` iterates two hash maps — `for scope in &scopes` and,
+inside a scope, `Vec::from_iter(scope.1.iter())` before the sort.  `buildWith reserved inp order keys` is the
+model with both iteration orders as parameters (`build` is the instance `order = scopeIds inp`, keys in push
+order: `build_eq_buildWith`).  For **every** permutation `order` of the scope list and every listing `keys s`
+of the names of scope `s` (any permutation), the function succeeds exactly when `build` does and returns the
+same assignment (the same `(symbol, scope, name)` triples; only the order in which they are listed follows the
+iteration).  Reasons: every scope starts from the reserved set, the key vector is sorted (`sortedNames_congr`:
+a strictly sorted list is determined by its members), `used_names_all_scopes` is only read after the loop and
+only through membership (`assignLocals_perm`). -/
+theorem build_scope_order_independent {reserved : List String} {inp : Input}
+    {order : List (Option Nat)} (horder : order.Perm (scopeIds inp))
+    {keys : Option Nat → List String} (hkeys : ∀ s, (keys s).Perm ((scopeSyms inp s).map (·.1))) :
+    (∀ names, build reserved inp = .ok names →
+      ∃ names', buildWith reserved inp order keys = .ok names' ∧ names'.Perm names) ∧
+    (∀ names', buildWith reserved inp order keys = .ok names' →
+      ∃ names, build reserved inp = .ok names ∧ names.Perm names') := by
+  have hk : ∀ s x, x ∈ keys s ↔ x ∈ (scopeSyms inp s).map (·.1) := fun s x => (hkeys s).mem_iff
+  have hd : ∀ s x, x ∈ (fun s => (scopeSyms inp s).map (·.1)) s ↔ x ∈ (scopeSyms inp s).map (·.1) :=
+    fun _ _ => Iff.rfl
+  constructor
+  · intro names h
+    rw [build_eq_buildWith] at h
+    exact buildWith_perm horder.symm hd hk h
+  · intro names' h
+    rw [build_eq_buildWith]
+    exact buildWith_perm horder hk hd h
+
+/-- non-vacuity: two namespaces that both overload `a`, scopes visited in reverse order and keys listed in
+reverse: same assignment (`N::a_0, N::a_1, M::a_0, M::a_1`), listed in the other order -/
+example :
+    let inp : Input := { nss := [(none, "N"), (none, "M")], locals := [],
+                         entries := [⟨⟨.func, 0⟩, some 0, "a"⟩, ⟨⟨.func, 1⟩, some 0, "a"⟩, ⟨⟨.global, 0⟩, some 0, "b"⟩,
+                                     ⟨⟨.func, 2⟩, some 1, "a"⟩, ⟨⟨.func, 3⟩, some 1, "a"⟩] }
+    (build [] inp).toOption.map (·.map (fun n => (n.sym.id, n.scope, n.name))) =
+      some [(1, none, "M"), (0, none, "N"), (0, some 0, "a_0"), (1, some 0, "a_1"), (0, some 0, "b"),
+            (2, some 1, "a_0"), (3, some 1, "a_1")] ∧
+    (buildWith [] inp [some 1, some 0, none] (fun s => ((scopeSyms inp s).map (·.1)).reverse)).toOption.map
+        (·.map (fun n => (n.sym.id, n.scope, n.name))) =
+      some [(2, some 1, "a_0"), (3, some 1, "a_1"), (0, some 0, "a_0"), (1, some 0, "a_1"), (0, some 0, "b"),
+            (1, none, "M"), (0, none, "N")] := by
+  decide
 
 /-- **the candidate loop of a scope terminates**: with the fuel the model uses the answer is never `"fuel"`,
 i.e. the Rust `loop` finds a free `name_k` after at most `used_names.len()` collisions (pigeonhole on the
